@@ -147,6 +147,11 @@ func (s *scte35) parseTable(data []byte) error {
 			return gots.ErrInvalidSCTE35Length
 		}
 		for bytesRead := uint16(0); bytesRead < descriptorLoopLength; {
+			if descriptorLoopLength-bytesRead < 2 {
+				// a single byte is left: not even a descriptor header. Without this check the
+				// remaining-length computation below underflows and bytesRead wraps around.
+				return gots.ErrInvalidSCTE35Length
+			}
 			descTag := readByte()
 			descLen := readByte()
 			// Make sure a bad descriptorLen doesn't kill us
